@@ -116,7 +116,19 @@ func runC10(tier string, seed uint64) {
 				s.Put(b, "n", []byte("N-"+b), nil)
 			}
 			stored := map[string][]string{}
+			// an object uploaded with every kind of header a copy treats specially (the ACL is not carried
+			// over; the rest is): it is the source of the first copy of every history
+			s.Put(buckets[0], "lead", []byte("copy-source"), []KV{{"X-Amz-Acl", "public-read"}, {"X-Amz-Meta-Src", "1"}, {"Content-Type", "text/x-src"}, {"X-Amz-Storage-Class", "STANDARD"}})
+			stored[buckets[0]] = append(stored[buckets[0]], "lead")
 			before := c10Snapshot(s, probe)
+			{
+				db := buckets[len(buckets)-1]
+				r := s.Copy(buckets[0], "lead", db, "x/y")
+				after := c10Snapshot(s, probe)
+				emit("c10", "FRAME", joinHex([]string{"o|" + db + "|x/y\x00", "l|" + db + "|x/y\x00", "f|" + db + "|"}), boolField(r.Status >= 400), strings.Join(before, ","), strings.Join(after, ","),
+					hs(fmt.Sprintf("%s copy of an object with ACL and metadata bucket=%q key=%q status=%d", kind, db, "x/y", r.Status)))
+				before = after
+			}
 			for j := 0; j < length; j++ {
 				b := buckets[rng.Intn(len(buckets))]
 				if rng.Intn(12) == 0 {
@@ -160,6 +172,11 @@ func runC10(tier string, seed uint64) {
 					}
 					r = s.Copy(sb, sk, b, k)
 				case w < 88:
+					// the keys of a multi-delete travel in the request body, byte for byte: "/x" is not "x"
+					if len(stored[b]) > 0 && rng.Intn(2) == 0 {
+						k = "/" + stored[b][rng.Intn(len(stored[b]))]
+						addressed = []string{"o|" + b + "|" + k + "\x00", "l|" + b + "|" + k + "\x00", "f|" + b + "|"}
+					}
 					r = s.MultiDelete(b, []KV{{K: k}})
 				case w < 92:
 					if isSingle(kind) {
